@@ -109,7 +109,9 @@ class CallGen:
             P = ch.choice(WIDE_T, "P")
             R = self.pick(ALL_T, lambda r: not (A and f5b(P, r)), "R")
             l1 = self.local_name(name, 1)
-            it = ch.choice(["i", "j", "k"], "it")
+            # the dialect's iterator variables are instruction-wide locals like any other: in configuration A the
+            # callee never uses the one a caller's own loop uses ("i")
+            it = ch.choice(["j", "k"] if A else ["i", "j", "k"], "it")
             step = ch.choice([("bin", "+", ("var", l1), ("var", "p")), ("bin", "^", ("shift", "<<", ("var", l1), 1), ("var", "p"))], "lstep")
             body = [("decl", P, l1, ("lit", 0, P)), ("for", it, ch.randint(0, 4, "trip"), [("assign", l1, step)]), ("return", ("var", l1))]
             params = [(P, "p")]
